@@ -177,7 +177,8 @@ func (r *recorder) emit(ev map[string]any) {
 		return
 	}
 	r.events++
-	if r.events == r.drop {
+	if r.drop > 0 && r.events >= r.drop && ev["ev"] == "cas" && ev["wrote"] == true {
+		r.drop = 0 // self-test: the first committed write at or after event `drop` is lost
 		return
 	}
 	if r.events == r.corrupt {
@@ -585,6 +586,24 @@ func alphabet(cfg [2][3]int, small bool) []step {
 	}
 }
 
+// scenario: a prefix of the systematic walk and whether owner ids are multi-partition ("i-1/0").
+type scenario struct {
+	multi  bool
+	prefix []step
+}
+
+func scenarios(cfg [2][3]int) []scenario {
+	var out []scenario
+	for _, p := range prefixes(cfg) {
+		out = append(out, scenario{false, p})
+	}
+	s1 := step{Kind: "start", L: 1, P: 1, B: true, Cfg: cfg[0]}
+	// multi-partition owners: the editor can remove the owner entry of a RUNNING lifecycler, the only way a
+	// lifecycler's own partition can become deletable while it runs
+	out = append(out, scenario{true, []step{s1, {Kind: "ed", P: 1, S: "I"}, {Kind: "rmowner", L: 1, P: 1}}})
+	return out
+}
+
 func prefixes(cfg [2][3]int) [][]step {
 	s1 := step{Kind: "start", L: 1, P: 1, B: true, Cfg: cfg[0]}
 	s21 := step{Kind: "start", L: 2, P: 1, B: true, Cfg: cfg[1]}
@@ -627,7 +646,12 @@ func recordTrace(t *testing.T, res *abs.Result) {
 			cfg = cfgProfiles[pi%len(cfgProfiles)]
 		}
 		alpha := alphabet(cfg, os.Getenv("VERIF_ALPHA") == "small")
-		for pfi, pf := range prefixes(cfg) {
+		for pfi, sc := range scenarios(cfg) {
+			pf := sc.prefix
+			alpha := alpha
+			if sc.multi {
+				alpha = append(append([]step{}, alpha...), step{Kind: "rmowner", L: 1, P: 1}, step{Kind: "rmowner", L: 2, P: 1})
+			}
 			idx := make([]int, tailLen)
 			for rec.fatal == "" {
 				steps := append([]step{}, pf...)
@@ -650,7 +674,7 @@ func recordTrace(t *testing.T, res *abs.Result) {
 					}
 				}
 				if feasible {
-					count(runChain(t, rec, false, map[string]any{"kind": "systematic", "prefix": pfi, "schedule": names}, steps, true, nil))
+					count(runChain(t, rec, sc.multi, map[string]any{"kind": "systematic", "prefix": pfi, "multi": sc.multi, "schedule": names}, steps, true, nil))
 				}
 				// next tail
 				k := tailLen - 1
